@@ -66,3 +66,8 @@ claim("C18",
       "frame analysis over the static call graph (callers, closures, go statements) for deferred non-fatal recover(), reachability of terminating calls from the connection roots with a positive control, control dependence across nested closures, provenance of decoder instances (go/ssa)",
       "Decides containment: every chain from a goroutine root to the MQTT decoder or the dispatcher passes a recovering frame set up before the call; nothing reachable from client-input handling terminates the process; a decode/dispatch error stops only that session's loop; in-flight callbacks touch the received packet only when not expired; decoders are never shared between goroutines. Necessary conditions of 'no client input can crash the broker'.",
       "Not decided: liveness ('stall'), panic-freedom of every index expression for every input, resource exhaustion.")
+
+claim("C17",
+      "mounted-topic typestate computed by provenance slicing with interprocedural parameter meet (static and interface call sites), provenance of the trim receiver and of lookup arguments, who-may-call inside the mount-point helpers (go/ssa)",
+      "Decides that every topic or filter reaching the replicated state, the message log, the distributor, the hand-off or the writer is mount-qualified on all sources, that PrefixMountPoint is never applied to an already mounted name, that delivery strips the prefix with the mount point of the very recipient being written to, that client-id lookups are scoped by the asking session's mount point (call sites and predicate), and that the helpers concatenate / slice verbatim. Necessary conditions of tenant isolation.",
+      "Not decided: value-level identity trim(prefix(t)) == t, mount points containing '/', contents of the audit stream; inter-node and admin RPC requests are trusted to carry mounted names.")
